@@ -332,6 +332,71 @@ func c06Engine(c *Ctx, syms []c06Sym, set []int) (evals int64) {
 	return evals
 }
 
+// c06Size: candidate lists of 9, 17 and 33 rules -- many copies of an ordinary
+// blocking rule with one or two special rules at the first, a middle and the
+// last position -- with and without document-level rules on the referrer.
+func c06Size(c *Ctx) (evals int64) {
+	plain := srule{false, c06Pat, []string{"script"}}
+	specials := [][]srule{
+		{{true, c06Pat, nil}},
+		{{false, c06Pat, []string{"important"}}},
+		{{true, c06Pat, []string{"important"}}, {false, c06Pat, []string{"important"}}},
+		{{false, c06Pat, []string{"domain=src.org"}}},
+		{{false, c06Pat, []string{"script", "badfilter"}}, {true, c06Pat, nil}},
+		{{true, c06Pat, []string{"badfilter"}}, {true, c06Pat, nil}, {false, c06Pat, []string{"important"}}},
+	}
+	sources := [][]srule{nil, {{true, c06SrcPat, []string{"genericblock"}}}, {{true, c06SrcPat, []string{"urlblock"}}}}
+	for _, n := range []int{9, 17, 33} {
+		for _, sp := range specials {
+			for _, pos := range []int{0, n / 2, n - len(sp)} {
+				var rs []srule
+				for i := 0; len(rs) < n; i++ {
+					if i == pos {
+						rs = append(rs, sp...)
+					} else {
+						rs = append(rs, plain)
+					}
+				}
+				var rl []*rules.NetworkRule
+				for _, r := range rs {
+					rl = append(rl, r.parse())
+				}
+				wantDNS := c06Reference(rs, nil, true)
+				evals++
+				if d := rules.GetDNSBasicRule(append([]*rules.NetworkRule{}, rl...)); c06ClassOfRule(d) != wantDNS || c06Special(d) != "" {
+					c.Run.Violate(ev.Violation{Pred: "dns-verdict-equals-reference", Sig: map[string]any{"size": n, "special": sp[0].text(), "position": pos},
+						What:   fmt.Sprintf("GetDNSBasicRule over %d rules (%d x %q with %v at position %d) = %s, documented precedence gives %s", len(rl), n-len(sp), plain.text(), textsOf(sp), pos, renderNetText(d), c06ClassNames[wantDNS]),
+						Replay: map[string]any{"rules": netTexts(rl), "source_rules": []string{}}})
+					return evals
+				}
+				for _, src := range sources {
+					var sl []*rules.NetworkRule
+					for _, r := range src {
+						sl = append(sl, r.parse())
+					}
+					want := c06Reference(rs, src, false)
+					evals++
+					m := rules.NewMatchingResult(append([]*rules.NetworkRule{}, rl...), sl)
+					if b := m.GetBasicResult(); c06ClassOfRule(b) != want || c06Special(b) != "" {
+						c.Run.Violate(ev.Violation{Pred: "web-verdict-equals-reference", Sig: map[string]any{"size": n, "special": sp[0].text(), "position": pos, "sources": textsOf(src)},
+							What:   fmt.Sprintf("NewMatchingResult over %d rules (%d x %q with %v at position %d), referrer rules %v: %s, documented precedence gives %s", len(rl), n-len(sp), plain.text(), textsOf(sp), pos, textsOf(src), renderNetText(b), c06ClassNames[want]),
+							Replay: map[string]any{"rules": netTexts(rl), "source_rules": netTexts(sl)}})
+						return evals
+					}
+				}
+			}
+		}
+	}
+	return evals
+}
+
+func textsOf(rs []srule) (out []string) {
+	for _, r := range rs {
+		out = append(out, r.text())
+	}
+	return out
+}
+
 // c06DocOnly: exception rules whose modifiers apply to documents only
 // ($elemhide, $generichide, $genericblock, $urlblock, $jsinject, $content,
 // $extension) and whose pattern matches the URL of a *sub-request* take no part
@@ -582,6 +647,7 @@ func init() {
 		c.Run.Set("evaluations", evals+engEvals)
 		c.Run.Set("distinct_nontrivial", nontrivial)
 		c.Run.Set("document_only_layer_evaluations", c06DocOnly(c))
+		c.Run.Set("size_layer_evaluations", c06Size(c))
 		compEvals := c06Composition(c)
 		c.Run.Set("composition_evaluations", compEvals)
 		c.Run.Set("rule", fmt.Sprintf("every multiset of <=%d rules over %d symbols (request-level: exception x important x $domain, $dnsrewrite, $badfilter twins, $stealth; referrer-level: urlblock/genericblock/document/elemhide/+important/+badfilter), request- and referrer-level lists each in every distinct permutation, through NewMatchingResult and GetDNSBasicRule; every set of <=3 symbols in every line order and every split into two lists through Engine, NetworkEngine and DNSEngine; composition layer: every set of <=3 of 13 rules (incl. $domain-restricted document-level exceptions) in both line orders x 18 requests (3 types x referrer none/same URL/same host/sub-domain/other host/other path): Engine.MatchRequest == precedence over the rules matching the request and the source-less referrer lookup; non-trivial = at least two rules", maxSize, len(syms)))
